@@ -36,7 +36,60 @@ def verify_contract(verifier, cls, **kw):
     except PathLimit as e:
         status, err = "pathlimit", str(e)
     obs = verifier.obligations[n0:]
-    for ob in obs:
-        discharge(ob, **kw)
+    discharge_all(obs, **kw)
     return dict(status=status, error=err, obligations=obs, time=time.time() - t0,
                 stats=verifier.stats.get((cls.file, cls.qualname)))
+
+
+def discharge_all(obs, quick_ms=300, cli_timeout_s=20, all_solvers=False, seed=0, workdir=None, threads=5):
+    """Stage 1: in-process z3 with a short budget (sequential: z3py contexts are not thread safe).
+    Stage 2: everything not proved goes to the command-line portfolio, several obligations at a time."""
+    from concurrent.futures import ThreadPoolExecutor
+    pending = []
+    for ob in obs:
+        neg = tm.Not(ob.goal)
+        sliced = tm.cone(list(ob.pc), [neg]) + [neg]
+        r = solve.z3_check(sliced, min(quick_ms, 300), want_model=False, seed=seed)
+        if r.verdict == "unsat" and not all_solvers:
+            r.all = {"z3py": ("unsat", round(r.time, 3))}
+            ob.result = r
+        else:
+            pending.append((ob, sliced, r))
+
+    def work(item):
+        ob, sliced, r0 = item
+        script = tm.smt_script(sliced, produce_models=False)
+        res = solve.cli_race(script, cli_timeout_s, workdir, wait_all=all_solvers)
+        res["z3py"] = r0
+        definite = {v.verdict for v in res.values() if v.verdict != "unknown"}
+        if len(definite) > 1:
+            return ob, ("disagree", res)
+        verdict = definite.pop() if definite else "unknown"
+        if verdict != "unsat" and len(sliced) < len(ob.pc) + 1:
+            full = tm.smt_script(list(ob.pc) + [tm.Not(ob.goal)], produce_models=False)
+            res2 = solve.cli_race(full, cli_timeout_s, workdir, wait_all=False)
+            d2 = {v.verdict for v in res2.values() if v.verdict != "unknown"}
+            if "unsat" in d2:
+                verdict, res = "unsat", res2
+            elif verdict == "unknown" and d2:
+                verdict, res = d2.pop(), res2
+        return ob, (verdict, res)
+
+    if pending:
+        with ThreadPoolExecutor(max_workers=threads) as ex:
+            for ob, (verdict, res) in ex.map(work, pending):
+                if verdict == "disagree":
+                    raise solve.SolverDisagreement({k: v.verdict for k, v in res.items()})
+                summary = {k: (v.verdict, round(v.time, 3)) for k, v in res.items()}
+                wins = sorted([v for v in res.values() if v.verdict == verdict], key=lambda v: v.time)
+                win = wins[0] if wins else None
+                wall = max([v.time for v in res.values()] or [0])
+                ob.result = solve.Result(verdict, win.solver if win else "portfolio", wall, None,
+                                         detail="; ".join("%s: %s" % (k, v.detail) for k, v in res.items() if v.detail),
+                                         all_=summary)
+    # models for failed obligations (in-process z3, bounded effort) -- used for replay only
+    for ob in obs:
+        if ob.result.verdict == "sat":
+            r2 = solve.z3_check(list(ob.pc) + [tm.Not(ob.goal)], 5000, want_model=True, seed=seed)
+            if r2.verdict == "sat":
+                ob.result.model = r2.model
